@@ -59,9 +59,9 @@ def draws(t):
                 out.append(("random", s, B.peel(s.a[1][0])))
             elif n == "vsss_rs::split_secret" and len(s.a[1]) == 4:
                 out.append(("split", s, B.peel(s.a[1][3])))
-            elif n in ("RngCore::fill_bytes", "RngCore::next_u64", "RngCore::next_u32") and s.a[1]:
+            elif n in ("RngCore::fill_bytes", "RngCore::try_fill_bytes", "RngCore::next_u64", "RngCore::next_u32") and s.a[1]:
                 out.append(("fill", s, B.peel(s.a[1][0])))
-        if s.op == "mutcall" and B.cname(s) in ("RngCore::fill_bytes", "Rng::fill"):
+        if s.op == "mutcall" and B.cname(s) in ("RngCore::fill_bytes", "RngCore::try_fill_bytes", "Rng::fill", "Rng::try_fill"):
             out.append(("fill", s, B.peel(s.a[2][0])))
     return out
 
@@ -125,7 +125,7 @@ def check_origin(ctx, P, fk, what, value_of, need="fresh-or-param", inline_depth
     ev = evaluate(f)
     v = value_of(ev)
     if v is None:
-        ctx.ob("E6.origin.anchor", "%s/%s" % (fk, what), False, "ephemeral value `%s` not found in `%s`" % (what, fk), where=where(f))
+        ctx.ob("E6.origin.anchor", _PFX + "%s/%s" % (fk, what), False, "ephemeral value `%s` not found in `%s`" % (what, fk), where=where(f))
         return None
     v = inline(P, v, inline_depth, only=lambda g: g.key not in ("helpers::get_crypto_rng",) and not g.key.endswith("hash_to_scalar"))
     v = expand_closures(P, v)
@@ -159,7 +159,7 @@ def check_origin(ctx, P, fk, what, value_of, need="fresh-or-param", inline_depth
                     if not (m_ and int(m_.group(1)) >= 32):
                         ok = False
                         detail.append("draw of type `%s` carries fewer than 32 random bytes" % ty)
-    ctx.ob("E6.origin", "%s/%s" % (fk, what), ok, "ephemeral `%s`: %s" % (what, "; ".join(detail)), where=where(f), sample={"fn": fk, "value": show(strip_sites(v), 6)[:300]})
+    ctx.ob("E6.origin", _PFX + "%s/%s" % (fk, what), ok, "ephemeral `%s`: %s" % (what, "; ".join(detail)), where=where(f), sample={"fn": fk, "value": show(strip_sites(v), 6)[:300]})
     return v
 
 
@@ -190,7 +190,21 @@ def run(ctx):
     ctx.ob("E7.statics", "cells", not cells, "once-cells / thread-local keys / atomics / locks used: %s" % [(f.key, t["callee"]["path"]) for f, bb, t in cells][:4], where=where(cells[0][0], cells[0][1]) if cells else None)
     calls = call_sites(P, lambda c, t: c.get("key") == "helpers::get_crypto_rng")
     ctx.floor("E7.rng", "get_crypto_rng call sites (detector is live; every ephemeral value is traced to one below)", len(calls), 5)
-    # 2. origin analysis
+    # 2. origin analysis - in both profiles: a draw that lives inside `debug_assert!` does not exist in a release build
+    _origins(ctx, P)
+    global _PFX
+    _PFX = "nodebug|"
+    try:
+        _origins(ctx, ctx.prog("blst", "nodebug"))
+    finally:
+        _PFX = ""
+    ctx.assume("ChaCha20Rng::from_entropy obtains 32 fresh bytes from the OS entropy source on every call (rand_core/getrandom contract); entropy quality across processes is an environment assumption")
+
+
+_PFX = ""
+
+
+def _origins(ctx, P):
     def ret_comp(i):
         def f(ev):
             r = ev.ret
@@ -239,7 +253,7 @@ def run(ctx):
         return None
     for fk in ("BlsElGamal::seal_scalar", "BlsElGamal::seal_point"):
         v = check_origin(ctx, P, fk, "blinder (c1 = G*b)", blinder)
-    f = ctx.need_fn("E6.origin", "BlsElGamal::seal_scalar_with_proof")
+    f = ctx.need_fn("E6.origin", "BlsElGamal::seal_scalar_with_proof", P)
     if f is not None:
         ev = evaluate(f)
         ss = [s for _, s in sorted(ev.sites.items()) if s.callee[0] == "BlsElGamal::seal_scalar"]
@@ -253,22 +267,21 @@ def run(ctx):
             s2 = {d[1] for d in d2}
             distinct = not (s1 & s2)
             # raw (site-carrying) terms must differ: two separate Field::random calls
-            ctx.ob("E6.origin", f.key + "/b-and-r", ok and distinct, "blinder b and proof nonce r are two separate draws from the caller's generator: b=%s r=%s" % (show(b1, 4), show(b2, 4)), where=where(f))
+            ctx.ob("E6.origin", _PFX + f.key + "/b-and-r", ok and distinct, "blinder b and proof nonce r are two separate draws from the caller's generator: b=%s r=%s" % (show(b1, 4), show(b2, 4)), where=where(f))
             # message of the second ciphertext is b (proof binds the blinder), nonce is not reused as message
         else:
-            ctx.ob("E6.origin.anchor", f.key, False, "expected two seal_scalar calls in seal_scalar_with_proof, found %d" % len(ss), where=where(f))
+            ctx.ob("E6.origin.anchor", _PFX + f.key, False, "expected two seal_scalar calls in seal_scalar_with_proof, found %d" % len(ss), where=where(f))
     # wrappers hand a fresh generator
     for fk, callee, idx in (("PublicKey<C>::encrypt_key_el_gamal", "BlsElGamal::seal_scalar", 4), ("PublicKey<C>::encrypt_key_el_gamal_with_proof", "BlsElGamal::seal_scalar_with_proof", 4), ("SecretKey<C>::new", "SecretKey<C>::random", 0), ("SecretKey<C>::split", "SecretKey<C>::split_with_rng", 3), ("ProofCommitmentChallenge<C>::new", "ProofCommitmentChallenge<C>::random", 0), ("BlsSignature<T>::new_secret_key", "SecretKey<C>::random", 0)):
-        f = ctx.need_fn("E6.origin", fk)
+        f = ctx.need_fn("E6.origin", fk, P)
         if f is None:
             continue
         ev = evaluate(f)
         ss = [s for s in ev.sites.values() if s.callee[0] == callee]
         ok = bool(ss) and len(ss[0].args) > idx and gen_ok(B.peel(ss[0].args[idx])) == "fresh"
-        ctx.ob("E6.origin", fk, ok, "%s receives a generator created by get_crypto_rng() in this very call" % callee, where=where(f))
+        ctx.ob("E6.origin", _PFX + fk, ok, "%s receives a generator created by get_crypto_rng() in this very call" % callee, where=where(f))
         blanks = [s for s in ev.sites.values() if s.callee[0] == "helpers::get_crypto_rng"]
-        ctx.ob("E6.origin", fk + "/per-call", len(blanks) == 1, "one get_crypto_rng() call per invocation (found %d)" % len(blanks), where=where(f))
-    f = ctx.need_fn("E6.origin", "SecretKey<C>::split_with_rng")
+        ctx.ob("E6.origin", _PFX + fk + "/per-call", len(blanks) == 1, "one get_crypto_rng() call per invocation (found %d)" % len(blanks), where=where(f))
+    f = ctx.need_fn("E6.origin", "SecretKey<C>::split_with_rng", P)
     if f is not None:
         check_origin(ctx, P, "SecretKey<C>::split_with_rng", "sharing polynomial", lambda ev: next((s.value for s in ev.sites.values() if s.callee[0] == "vsss_rs::split_secret"), None))
-    ctx.assume("ChaCha20Rng::from_entropy obtains 32 fresh bytes from the OS entropy source on every call (rand_core/getrandom contract); entropy quality across processes is an environment assumption")
